@@ -116,4 +116,29 @@ def njRun : Nat → NState S → NState S
 def neighbor (M : List (List S)) (n : Nat) : NState S :=
   njRun n ⟨(List.range n).map fun i => [i], M, (List.range n).map fun i => ([i], i), []⟩
 
+/-! ### reading a tree matrix: leaves below every node and the path length between two leaves -/
+
+/-- decoding state: node id ↦ the leaves below it with their depth; the path lengths recorded so far; the next node id -/
+structure Dec (S : Type) where
+  nodes : List (Nat × List (Nat × S))
+  dists : List ((Nat × Nat) × S)
+  next : Nat
+
+def nodeLeaves (nodes : List (Nat × List (Nat × S))) (id : Nat) : List (Nat × S) :=
+  ((nodes.find? fun p => p.1 == id).map (·.2)).getD []
+
+/-- one row `(idA, idB, branchA, branchB)`: the new node gets the next id (lingpy: `n + row index`), two leaves that meet
+in it are `depth + branch` away from it on either side -/
+def decStep (d : Dec S) (r : Row S) : Dec S :=
+  let A := (nodeLeaves d.nodes r.1).map fun p => (p.1, add p.2 r.2.2.1)
+  let B := (nodeLeaves d.nodes r.2.1).map fun p => (p.1, add p.2 r.2.2.2)
+  { nodes := d.nodes ++ [(d.next, A ++ B)],
+    dists := d.dists ++ A.flatMap fun p => B.map fun q => ((p.1, q.1), add p.2 q.2),
+    next := d.next + 1 }
+
+def decInit (n : Nat) : Dec S := ⟨(List.range n).map fun i => (i, [(i, zero)]), [], n⟩
+
+/-- all leaf-to-leaf path lengths of the tree a tree matrix over `n` taxa describes -/
+def decode (n : Nat) (rows : List (Row S)) : Dec S := rows.foldl decStep (decInit n)
+
 end Verif.TreeBuild
